@@ -172,6 +172,11 @@ def specs_faults(ctx, kinds, seeds=2, cfg=None, tag='f'):
                 for op in ('open', 'write', 'close', 'rename'):
                     for nth in (1, 2):
                         out.append(dict(transfers=[ts], cfg=cfg, chooser=ch, fs_fault=dict(op=op, nth=nth)))
+                # a failing write followed by a failing close in the cleanups
+                out.append(dict(transfers=[ts], cfg=cfg, chooser=ch,
+                                fs_fault=[dict(op='write', nth=1 + sd), dict(op='close', nth='all')]))
+                out.append(dict(transfers=[ts], cfg=cfg, chooser=ch,
+                                fs_fault=[dict(op='rename', nth=1), dict(op='close', nth=2)]))
                 for att in (1, 4, 5):
                     out.append(dict(transfers=[ts], cfg=cfg, chooser=ch,
                                     get_fault=dict(range_idx=sd % 2, attempts=att, after=1 + sd, exc='timeout', read_sizes=[2, 1, 3])))
